@@ -27,6 +27,10 @@ def gen_session(rng, wills=False, flow=False):
             line += f" will=w/x,{rng.choice([0, 1])},{rng.choice([0, 1])},{rng.choice([0, 0, 1, 2]) if ver == 5 else 0},W{life}"
         ops.append(line)
         cur = name
+    def dupflag(q):
+        # a publisher that retransmits (its own connection had been cut before the ack) sets DUP=1; the flag belongs to THAT
+        # hop: what the broker sends on must start with DUP=0 (seed C03-4)
+        return " d=1" if q and rng.random() < 0.2 else ""
     def acks(name, full=None):
         mode = full if full is not None else rng.choice(["all", "all", "none", "first", "rec-only"])
         if mode == "all":
@@ -42,7 +46,7 @@ def gen_session(rng, wills=False, flow=False):
             if r < 0.35:
                 tag += 1; pid += 1
                 q = rng.choice([0, 1, 1, 2])
-                ops.append(f"pub p t/a q={q} pid={pid if q else 0} tag=m{tag}")
+                ops.append(f"pub p t/a q={q} pid={pid if q else 0} tag=m{tag}" + dupflag(q))
                 if q == 2: ops.append(f"rel p {pid}")
                 acks("p", "all")
             elif r < 0.5:
@@ -71,7 +75,7 @@ def gen_session(rng, wills=False, flow=False):
             elif r < 0.5:
                 tag += 1; pid += 1
                 q = rng.choice([0, 1, 1, 2])
-                ops.append(f"pub p t/a q={q} pid={pid if q else 0} tag=m{tag}")
+                ops.append(f"pub p t/a q={q} pid={pid if q else 0} tag=m{tag}" + dupflag(q))
                 if q == 2: ops.append(f"rel p {pid}")
                 acks("p", "all")
                 acks(cur)
